@@ -147,7 +147,7 @@ inline ModelSpec gen_model(Rng& r, const GenOpts& g) {
         int target = (int)r.range(g.min_modes, g.max_modes);
         std::vector<std::string> pool = label_pool();
         int nsites = 0, modes = 0;
-        bool hetero = g.hetero && r.coin(0.35);
+        bool hetero = g.hetero && r.coin(0.45);
         while (nsites < g.max_sites && modes < target) {
             SiteSpec s;
             size_t li = (size_t)r.range(0, (long)pool.size() - 1); s.label = pool[li]; pool.erase(pool.begin() + (long)li);
@@ -190,7 +190,9 @@ inline ModelSpec gen_model(Rng& r, const GenOpts& g) {
                 t.dag = {1, 0, 1, 0}; t.site = {s, s, s, s}; t.orb = {oo, oo, oo, oo}; t.spin = {0, 0, 1, 1}; t.val = U; d.raw = t; if (g.allow_raw) m.ops.push_back(d);
             }
         } else { o.kind = Op::COULOMB_S; o.v1 = U; o.v2 = vg.level(); m.ops.push_back(o); }
-        if (S.nspin == 2 && r.coin(0.25)) { Op mg; mg.kind = Op::MAG; mg.a = mg.b = s; mg.v1 = vg.level() * 0.3; if (g.allow_presets) m.ops.push_back(mg); }
+        if (S.nspin == 2 && r.coin(m.pclass == "neardeg" ? 0.6 : 0.25)) { Op mg; mg.kind = Op::MAG; mg.a = mg.b = s; mg.v1 = vg.level() * 0.3;
+            if (m.pclass == "neardeg") { static const double sp[] = {5e-10, 2e-9, 5e-9, 1e-8, 2e-8, 1e-7, 1e-6}; mg.v1 = sp[r.range(0, 6)]; }   // tiny Zeeman splitting straddling the 1e-8 windows
+            if (g.allow_presets) m.ops.push_back(mg); }
     }
     // --- hopping
     if (!atomic) {
